@@ -80,10 +80,13 @@ theorem C11_current {F : Type} (ext : Ext F) (inputs : List (InputDef F))
 them (hash of each, strings and comments stripped).  An edit to any of them breaks this obligation; the
 correspondence then decides (mutating-resolver table of C11, argument streams of C04 / C02). -/
 def pinnedArgSkeleton : List (String × String) := [
+  ("Error.in", "cffe1f43c8db"),
+  ("Errors.in", "fbcdd807c73e"),
   ("Input.CoerceIn", "1ae44ebae6eb"),
   ("Input.reflectSet", "7a298a1de3ad"),
   ("Input.reflectSetKey", "b97163bbb51d"),
   ("List.CoerceIn", "342314fa8b37"),
+  ("Root.addError", "c5f7e10ca815"),
   ("NonNull.CoerceIn", "07c35bfdab4c"),
   ("Root.formArgs", "4ce1628b3fc4"),
   ("Root.formReflectArgs", "3966a01466f3"),
